@@ -12,6 +12,20 @@ from . import tlc
 TRACE_CFG = "SPECIFICATION Spec\nCHECK_DEADLOCK FALSE\n"
 
 
+def procs(cap: int = 16) -> int:
+    """Parallelism for pools / parallel TLC runs (VERIF_PROCS, default 16)."""
+    return max(1, min(cap, int(os.environ.get("VERIF_PROCS", "16"))))
+
+
+def violation(rep, desc: dict):
+    """rep.violation + a per-clause counter in the evidence (only the first few violations are
+    printed / stored as replay files by the framework)."""
+    vc = rep.coverage.setdefault("violated_clauses", {})
+    for c in desc.get("clauses", []):
+        vc[c] = vc.get(c, 0) + 1
+    return rep.violation(desc)
+
+
 def validate(module: str, traces: list, *, timeout=1800, env=None, heap="8g"):
     """Run the hand-written batch trace spec `module` (reads IOEnv.TRACE_FILE, prints one
     ACCEPT/REJECT line per trace) over `traces`.  Returns (rejects, tlc result).  Raises
@@ -43,7 +57,7 @@ def validate_chunks(module: str, traces: list, *, chunks: int = 1, **kw):
         return rej, (res.distinct if res else 0)
     size = (len(traces) + chunks - 1) // chunks
     parts = [(i, traces[i:i + size]) for i in range(0, len(traces), size)]
-    with ThreadPoolExecutor(len(parts)) as ex:
+    with ThreadPoolExecutor(procs(len(parts))) as ex:
         outs = list(ex.map(lambda p: validate(module, p[1], **kw), parts))
     rej, states = [], 0
     for (off, _), (r, res) in zip(parts, outs):
@@ -65,7 +79,7 @@ def run_mc(module: str, cfg: str, *, workers=1, timeout=1800, heap="8g", env=Non
 
 def run_mc_parts(module: str, cfgs: list[str], *, timeout=1800, heap="4g"):
     """Several independent MC runs (e.g. a partition of the configurations) in parallel."""
-    with ThreadPoolExecutor(max(1, len(cfgs))) as ex:
+    with ThreadPoolExecutor(procs(max(1, len(cfgs)))) as ex:
         return list(ex.map(lambda c: run_mc(module, c, timeout=timeout, heap=heap), cfgs))
 
 
